@@ -244,6 +244,8 @@ def run_one(sim, params):
         finally:
             nfc.tag.tt3_sony.os, nfc.tag.tt2_nxp.os = saved_os
     kw = {"protocol_variants": False} if typ == "t4" else {}
+    if typ == "t2" and sim.chance("t2.big", 0.3):
+        kw["big"] = True        # more than one sector: SECTOR SELECT is part of the operations
     case = gen.GENERATORS[typ](sim, **kw)
     return scenario(sim, params, nfc, typ, case, None)
 
@@ -285,6 +287,7 @@ def scenario(sim, params, nfc, typ, case, fixed_os):
             log = [(c, fn if r is not None else "unanswered") for (i, fn, c, r) in w.device.log if i >= base]
             n_retry = getattr(getattr(tag, "_dep", None), "n_retry_nak", None)
             return {"out": out, "val": res, "fired": fired[0], "m": w.device.exchanges - base,
+                    "cmds": [bytes(c) if c is not None else b"" for (i, fn, c, r) in w.device.log if i >= base],
                     "answered": [c for c, fn in log if fn == "ok"], "mem": bytes(w.silicon.mem),
                     "n_retry": n_retry, "cls": type(tag).__name__.replace("Type4ATag", "Type4Tag").replace("Type4BTag", "Type4Tag"),
                     "apdus": list(getattr(getattr(w.silicon, "app", None), "executed", []))}
@@ -303,6 +306,14 @@ def scenario(sim, params, nfc, typ, case, fixed_os):
     if m == 0:
         sim.probe("op.no_exchanges")
         return
+    # Type 2 Tag SECTOR SELECT is two packets, the second acknowledged by silence: a fault on either packet cannot be
+    # told from success by any reader (protocol property, not nfcpy's): those positions only get the outcome-type clause
+    sector_select = set()       # packet 2 positions
+    sector_select1 = set()      # packet 1 positions (a lost packet 1 can be repeated safely, a lost answer to it can not)
+    for i, cmd in enumerate(base.get("cmds", [])):
+        if cmd == b"\xC2\xFF":
+            sector_select1.add(i)
+            sector_select.add(i + 1)
     only = params.get("fault")
     if only is not None:
         plans = [tuple(only)]
@@ -340,7 +351,10 @@ def scenario(sim, params, nfc, typ, case, fixed_os):
                             "%s under [%s] raised %r (%s); %r" % (op, fdesc, r["val"], core.exc_line(r["val"]), desc), ov)
         within = r["fired"] <= budget
         executed = k in (LOSE_RSP, CORRUPT_RSP, PROTOCOL_ERR)
-        if within and r["fired"] > 0 and executed and op in NON_IDEMPOTENT and typ in VENDOR:
+        if within and r["fired"] > 0 and (any(x in sector_select for x in range(p, p + b)) or
+                                          (executed and any(x in sector_select1 for x in range(p, p + b)))):
+            sim.probe("sector_select.outcome_type_only")
+        elif within and r["fired"] > 0 and executed and op in NON_IDEMPOTENT and typ in VENDOR:
             sim.probe("non_idempotent.outcome_type_only")
         elif within and r["fired"] > 0:
             same = (r["out"] == base["out"] and
